@@ -38,8 +38,10 @@ def run(R):
     # quick: the SHA-512 padding classes of both hashes of a signature: the nonce hash absorbs 32 + n bytes, the challenge hash 64 + n;
     # total length mod 128 in {111 (length field fits exactly), 112 (spill block), 127, 0, 1} for either of them, + small / long
     lens = list(range(0, 301)) if thorough else sorted({0, 1, 31, 32, 300} | {t - pre + k * 128 for pre in (32, 64) for t in (111, 112, 127, 128, 129) for k in (0, 1)})
+    # long messages: both hashes then receive several whole 128-byte blocks in one update (a bulk path of the compression loop)
+    lens += [320, 353, 700] + ([1025, 2000] if thorough else [])
     s0 = seeds[0][1]
-    stream = rb("msg", 400)
+    stream = rb("msg", 2100)
     for n in lens:
         evs.append(({"op": "ed_signature", "seed": s0, "msg": stream[:n]}, ("sign", "len%d" % n)))
     for j, (name, s) in enumerate(seeds[1:(64 if thorough else 8)] + seeds[-3:]):
